@@ -164,6 +164,11 @@ func (r *replication) replicate(c *conn, req *appendReq) error {
 		var (
 			resultCh = make(chan result, 128)
 			stopCh   = make(chan struct{})
+
+			// set by the writer, before it closes resultCh, if it stopped after
+			// writing a request whose result it could not queue
+			unqueued    bool
+			unqueuedErr error
 		)
 		go func() {
 			defer func() {
@@ -180,6 +185,7 @@ func (r *replication) replicate(c *conn, req *appendReq) error {
 				err := r.writeAppendEntriesReq(c, req, true)
 				select {
 				case <-stopCh:
+					unqueued, unqueuedErr = true, err
 					return
 				case resultCh <- result{r.nextIndex - 1, err}:
 				}
@@ -209,6 +215,14 @@ func (r *replication) replicate(c *conn, req *appendReq) error {
 				if err := c.readResp(resp, r.deadline()); err != nil {
 					return err
 				}
+			}
+			if unqueued {
+				// one more request is on the wire: its response must be consumed
+				// too, or the next user of this connection reads it as its own
+				if unqueuedErr != nil {
+					return unqueuedErr
+				}
+				return c.readResp(resp, r.deadline())
 			}
 			return nil
 		}
